@@ -3,7 +3,7 @@
      raptor/multilevel/par_multilevel.hpp  ParMultilevel::cycle   (distributed classes, tap on/off)
    and of the kernels it calls
      raptor/util/linalg/relax.cpp, par_relax.cpp   jacobi / sor / ssor   (hybrid: off-process values frozen)
-     raptor/util/linalg/par_spmv.cpp               residual, mult_T (with its `if (local_num_rows)` guard), mult_append
+     raptor/util/linalg/par_spmv.cpp               residual, mult_T (every rank zeroes its part of the result), mult_append
      form_dense_coarse / duplicate_coarse + dgetrs_ with trans = 'T'.
 
    THE SCRATCH STATE IS EXPLICIT.  Every vector that persists between two calls of cycle() is an input and an
@@ -15,7 +15,7 @@
    `level_ok` (affine-linear relaxation that fixes solutions and does not read its scratch, ...).
    Part 2 (Section Concrete): the interface instantiated with dense list models, sequential semantics; a
    distributed operator is a function of the GLOBAL data plus the partition (list of block sizes, zeros
-   allowed), which matters only for hybrid relaxation and for the guard of mult_T.
+   allowed), which matters only for hybrid relaxation.
    Arithmetic over an abstract field; executed at Qc (Extract/Inst_cycle.v).  Floats are not modelled. *)
 From Raptor Require Import Base.Sums.
 
@@ -125,17 +125,22 @@ Definition c_prolong (P : mat) (xc x : vec) : vec := vadd x (mulmat P xc).
 Definition mulmatT (P : mat) (r : vec) (m : nat) : vec :=
   map (fun j => sumF (vzip (fun row ri => xat row j * ri) P r)) (seq O m).
 
-(* ParMatrix::mult_T / tap_mult_T:   `if (local_num_rows) on_proc->mult_T(x.local, b.local);` is what zeroes
-   b.local (Matrix::mult_T sets b[0..n_cols) = 0 first); complete_comm_T then ADDS the received products.
-   A rank that owns coarse columns but no fine rows therefore keeps the old content of its block of b.
-   fparts / cparts = rows of P per rank / columns of P per rank. *)
+(* ParMatrix::mult_T / tap_mult_T.  NOW: `if (local_num_rows) on_proc->mult_T(x.local, b.local); else
+   b.local.set_const_value(0.0);` -- every rank zeroes its block of b (Matrix::mult_T sets b[0..n_cols) = 0
+   first), then complete_comm_T ADDS the received products:  b := 0 + P^T r. *)
+Definition c_restrict (P : mat) (m : nat) (r bo : vec) : vec := vadd (zero_like bo) (mulmatT P r m).
+
+(* BEFORE the fix (c46a987) there was no else-branch: a rank that owns coarse columns but no fine rows kept the
+   old content of its block of b.  fparts / cparts = rows of P per rank / columns of P per rank.  Kept as
+   documentation (C09_history_free_old_mult_T_refuted); on hierarchies built by the library such a rank does
+   not exist (coarse unknowns are a subset of / aggregates of the rank's own fine unknowns). *)
 Fixpoint guard_base (fparts cparts : list nat) (bo : vec) : vec :=
   match fparts, cparts with
   | f :: fs, c :: cs =>
       (if f =? O then firstn c bo else zero_like (firstn c bo)) ++ guard_base fs cs (skipn c bo)
   | _, _ => []
   end.
-Definition c_restrict (P : mat) (fparts cparts : list nat) (m : nat) (r bo : vec) : vec :=
+Definition c_restrict_old (P : mat) (fparts cparts : list nat) (m : nat) (r bo : vec) : vec :=
   vadd (guard_base fparts cparts bo) (mulmatT P r m).
 
 (* ---- relaxation ---- *)
@@ -206,7 +211,7 @@ Record clevel := mkCL { cl_A : mat; cl_P : mat; cl_parts : list nat }.   (* part
 Record chier := mkCH {
   ch_levels : list clevel;          (* the levels that have a P *)
   ch_coarse : mat;                  (* A of the coarsest level *)
-  ch_cparts : list nat;             (* row partition of the coarsest level *)
+  ch_cparts : list nat;             (* row partition of the coarsest level (not read by any kernel) *)
   ch_kind : rkind; ch_omega : F; ch_sweeps : nat;
   ch_trans : bool                   (* 'T' (true) in the current code *)
 }.
@@ -216,17 +221,17 @@ Definition next_parts (rest : list clevel) (last : list nat) : list nat :=
 Definition next_n (rest : list clevel) (Mc : mat) : nat :=
   match rest with [] => length Mc | c :: _ => length (cl_A c) end.
 
-Definition mk_level (H : chier) (c : clevel) (nc : nat) (cparts : list nat) : level :=
+Definition mk_level (H : chier) (c : clevel) (nc : nat) : level :=
   mkLevel (length (cl_A c)) nc
     (c_relax (ch_kind H) (cl_A c) (ch_omega H) (cl_parts c) (ch_sweeps H))
     (c_resid (cl_A c))
-    (c_restrict (cl_P c) (cl_parts c) cparts nc)
+    (c_restrict (cl_P c) nc)
     (c_prolong (cl_P c)).
 
 Fixpoint mk_levels (H : chier) (cs : list clevel) : list level :=
   match cs with
   | [] => []
-  | c :: rest => mk_level H c (next_n rest (ch_coarse H)) (next_parts rest (ch_cparts H)) :: mk_levels H rest
+  | c :: rest => mk_level H c (next_n rest (ch_coarse H)) :: mk_levels H rest
   end.
 
 Definition h_cycle (H : chier) (ss : list scratch) (x b : vec) : vec * vec * list scratch :=
